@@ -71,7 +71,7 @@ func (v Value) Equal(w Value) bool {
 	case "panic":
 		return true
 	}
-	return false
+	return v.Note == w.Note
 }
 
 func equalInts(a, b []int) bool {
